@@ -80,6 +80,10 @@ pub struct ClusterCfg {
     /// extension): membership comes from the real gossip layer instead of harness views
     #[serde(default)]
     pub real_membership: bool,
+    /// (node, keyspace, count): the node's store holds `count` documents before anything starts
+    /// (written by that node, a few ms apart) - a node with history that others join
+    #[serde(default)]
+    pub prefill: Option<(u8, String, u64)>,
 }
 
 #[derive(Serialize, Deserialize, Clone, Debug)]
@@ -173,6 +177,8 @@ pub struct Shared {
     pub subscribed: BTreeMap<u8, BTreeMap<u8, SocketAddr>>,
     /// real-membership mode: deltas the subscriber was handed (count)
     pub deltas_seen: u64,
+    /// documents put into a store before the start (they count as issued operations)
+    pub prefilled: Vec<Issued>,
 }
 
 pub type SharedRef = Rc<RefCell<Shared>>;
@@ -247,7 +253,28 @@ impl<'a> Cluster<'a> {
             member_rx: BTreeMap::new(),
             subscribed: BTreeMap::new(),
             deltas_seen: 0,
+            prefilled: Vec::new(),
         }));
+        if let Some((node, ks, count)) = cfg.prefill.clone() {
+            let mut sh = shared.borrow_mut();
+            let mut filled = Vec::with_capacity(count as usize);
+            if let Some(st) = sh.stores.get(&node) {
+                let mut st = st.st.lock();
+                if !st.keyspaces.contains(&ks) {
+                    st.keyspaces.push(ks.clone());
+                }
+                let rows = st.rows.entry(ks.clone()).or_default();
+                // well inside the forgiveness window before the start
+                let start = cfg.base_ms.saturating_sub(600_000) / 4 * 4;
+                for j in 0..count {
+                    let ts = HLCTimestamp::new(Duration::from_millis(start + 4 * (j % 100_000)), (j / 100_000) as u16, node);
+                    let data = format!("pre{j}").into_bytes();
+                    rows.insert(j, Row { ts, data: Some(data.clone()) });
+                    filled.push(Issued { ks: ks.clone(), id: j, ts, data: Some(data) });
+                }
+            }
+            sh.prefilled = filled;
+        }
         if cfg.real_membership {
             chitchat::verif::set_seed(cfg.net_seed ^ 0xC41C);
         }
@@ -776,7 +803,7 @@ pub struct Issued {
 /// instead would launder a manufactured timestamp: a tombstone a peer invents with the issuer's
 /// node id comes back to the issuer through repair and would then look like its own operation.
 pub fn issued_ops(sh: &Shared) -> Vec<Issued> {
-    let mut out: BTreeSet<Issued> = BTreeSet::new();
+    let mut out: BTreeSet<Issued> = sh.prefilled.iter().cloned().collect();
     for o in &sh.ops {
         let Some(st) = sh.stores.get(&o.node) else { continue };
         let st = st.st.lock();
